@@ -1037,11 +1037,12 @@ GEN = {
     "argfind": gen_argfind,
 }
 
-DEFAULT_P = {"maxlen": 5, "ell_p": 0.12, "flat_p": 0.25, "br_flat_p": 0.0}
+DEFAULT_P = {"maxlen": 5, "ell_p": 0.12, "flat_p": 0.25, "br_flat_p": 0.0, "dtype_p": 0.0}
 
 
 def finalize_case(case, rng, nprng, P):
     """Sizes, numbers, keyword sizes, data."""
+    case.note["dtype_p"] = P.get("dtype_p", 0.0)
     # effective explicit brackets for un-bracketed reduce/dot
     case.finish()
     numberize(rng, case, P.get("num_p", 0.2))
@@ -1070,6 +1071,17 @@ def finalize_case(case, rng, nprng, P):
     for i, (shape, dt) in enumerate(zip(case.in_shapes, case.dtypes)):
         nonzero = case.op in ("true_divide", "floor_divide", "divide") and i == 1
         tensors.append(make_data(rng, shape, dt, nprng, distinct=bool(case.note.get("distinct")), nonzero=nonzero))
+    # dtype variety (C01/C09 switch it on with P["dtype_p"]): narrow, unsigned and boolean inputs for operations whose meaning does not depend on it
+    if case.note.get("dtype_p", 0.0) > 0 and rng.random() < case.note["dtype_p"] and case.family in ("elementwise", "reduce", "dot", "get_at", "preserve", "id") \
+            and case.op not in ("true_divide", "floor_divide", "divide", "logaddexp", "logsumexp", "softmax", "log_softmax", "mean", "var", "std", "where", "prod"):
+        pool_dt = ["float32", "int32", "uint8", "int64", "float64", "int16", "uint16"] + (["bool"] if case.op not in ("subtract", "dot", "sort", "argsort", "negative") else [])
+        for i, t in enumerate(tensors):
+            if case.family == "get_at" and i >= 1:
+                continue  # coordinates stay integer indices
+            dt = rng.choice(pool_dt)
+            tt = np.abs(t) if dt.startswith("u") else t
+            tensors[i] = np.asarray(tt).astype(dt)
+        case.feats.add("dtype-variety")
     # exp-based operations: slices that lie far apart (hundreds of units) expose a stabilising shift that is not taken per slice
     if case.op in ("logsumexp", "softmax", "log_softmax", "logaddexp") and rng.random() < 0.5:
         for i, t in enumerate(tensors):
@@ -1173,6 +1185,8 @@ def risk(case):
         tags.append("multi-bracket-in-flatten")
     if "brflat-inner-sizes-given" in case.feats:
         tags.append("bracket-around-flatten-with-inner-sizes")
+    if case.op in ("sum", "dot") and case.tensors is not None and any(getattr(t, "dtype", None) == np.bool_ for t in case.tensors):
+        tags.append("bool-sum")
     seen = {}
 
     def rec(items, depth):
